@@ -256,10 +256,15 @@ def main(run):
         if got != exp or what == "hexfloat":
             run.add(Finding("C15:nonwf:%s" % what, "convert_type(%r, float32) = %r" % (text, got), dict(text=text, got=got)))
     # 5. dtype spellings
-    info = load_model_info("sphere")
     table = {"single": 4, "float32": 4, "f": 4, "fast": 4, "double": 8, "float64": 8, "d": 8, "default": 8, None: 8,
              "quad": 16, "longdouble": 16}
-    for spelling, size in table.items():
+    # an explicit request is honoured for every model, also for those not declared safe for single precision
+    # (single = False only steers the DEFAULT); a product inherits the flag of its parts
+    from sasmodels.core import list_models
+    unsafe = [n for n in list_models() if not load_model_info(n).single][:2]
+    stats["models_not_single_safe"] = unsafe
+    for mname_, spelling, size in [(m_, sp_, sz_) for m_ in ["sphere"] + unsafe + ["sphere@hardsphere"] for sp_, sz_ in table.items()]:
+        info = load_model_info(mname_)
         for bang in ("", "!"):
             if spelling is None and bang:
                 continue
@@ -272,7 +277,8 @@ def main(run):
             except Exception as exc:  # noqa
                 ok, nd = False, repr(exc)
             if not ok:
-                run.add(Finding("C15:dtype:%s" % sp, "parse_dtype(%r) selected %r, expected %d bytes on dll" % (sp, nd, size), dict(spelling=sp)))
+                run.add(Finding("C15:dtype:%s:%s" % (mname_, sp), "parse_dtype(%s, %r) selected %r, expected %d bytes on dll" % (mname_, sp, nd, size), dict(model=mname_, spelling=sp)))
+    info = load_model_info("sphere")
     try:
         parse_dtype(info, "half!", "dll")
         nd, _, _ = parse_dtype(info, "half!", "dll")
